@@ -18,6 +18,8 @@ class Env:
         self.fields = fields      # rust field name -> (gallina name, type)
         self.inner = inner        # field holding the wrapped robot
         self.vars = {}            # rust local -> (gallina, type)
+        self.helpers = {}         # private pure helper methods of the same struct: name -> (params text, body); inlined at the call
+        self.depth = 0
         self.lets = []            # emitted lets
 
 
@@ -67,6 +69,18 @@ def ex(e, env):
             if [t for _, t in ga] != SIG[name]:
                 raise Refuse(f"argument types of robot.{name}: {[t for _, t in ga]}")
             return "(" + " ".join([f"k_{name} robot"] + [g for g, _ in ga]) + ")", RET[name]
+        if recv == ("path", ["self"]) and name in getattr(env, "helpers", {}) and name != "remove_collisions":
+            # a private helper of the same struct that only computes a value: translate its body with the arguments bound
+            params, hbody = env.helpers[name]
+            pnames = [p.split(":")[0].strip() for p in params.split(",")[1:]]
+            pnames = [n for n in pnames if n]
+            if len(pnames) != len(args) or env.depth >= 3:
+                raise Refuse(f"helper {name}: arguments")
+            sub = Env(env.fields, env.inner)
+            sub.helpers, sub.depth = env.helpers, env.depth + 1
+            for n, a in zip(pnames, args):
+                sub.vars[n] = ex(a, env)
+            return body_to_gallina(hbody, sub)
         if recv == ("path", ["self"]) and name == "remove_collisions" and len(args) == 1:
             (a, ta) = ex(args[0], env)
             if ta != "Sols":
@@ -234,6 +248,13 @@ def wrapper(src, struct, coqname, fields, inner):
     missing = [m for m in METHODS if m not in ms]
     if missing:
         raise Refuse(f"{struct}: missing methods {missing}")
+    helpers = {}
+    for hm in re.finditer(r"\bimpl\s+" + struct + r"\s*\{", src):
+        j = hm.end() - 1
+        block = src[j + 1:rs2v.match_brace(src, j)]
+        for m in re.finditer(r"\bfn\s+(\w+)\s*\(\s*&self([^)]*)\)\s*->\s*[^{]+\{", block):
+            k = block.index("{", m.start())
+            helpers.setdefault(m.group(1), ("&self" + m.group(2), block[k + 1:rs2v.match_brace(block, k)]))
     binders = " ".join(f"({g} : {'Iso' if t == 'Pose' else 'R' if t == 'R' else 'nat'})" for g, t in fields.values())
     out = f"Definition {coqname} {binders} (robot : Kin) : Kin := {{|\n"
     rows = []
@@ -244,6 +265,7 @@ def wrapper(src, struct, coqname, fields, inner):
         if len(names) != len(SIG[m]):
             raise Refuse(f"{struct}::{m}: parameter count")
         env = Env(fields, inner)
+        env.helpers = helpers
         for n, t in zip(names, SIG[m]):
             env.vars[n] = (n, t)
         g, t = body_to_gallina(body, env)
